@@ -11,7 +11,7 @@ RULE = ('random entity graphs (every kind, one target linked from many holders: 
         'the same order. non-trivial = a delete that removed an entity some holder pointed to or that had descendants; distinct = distinct op text.')
 TRUSTED = ['harness dump (every public getter of every entity)', 'H5Iget_name keeps finding a remaining path (removeAllLinks)']
 LEVEL_TEXT = ('Lean 4 theorems about the store model, for every store, every victim and every way of naming it: each delete entry point (blocks; sections and sources with their subtree, at every nesting depth by induction; data arrays, data frames, tags, multi tags, groups) removes exactly the links whose target lies in a set D of deleted objects, everywhere — so no object keeps a link to a deleted object and no path from anywhere reaches it (whatever held it: references, positions, extents, feature data, group membership, attached sources, metadata, section links are all hard links), while every object keeps its attributes, its kind and its other links in their order; the entity looked up is in D when the call answers true. Unlinking one name in one group (remove reference / source / member, unset metadata / link / extents) touches nothing else. The dumps around every delete of every generated graph are judged against each other (victim and subtree gone, no field mentions them, survivors identical and in order, stale handle invalid) and the model must predict the dump.')
-LEVEL_NOTE = ("Trusted: Lean kernel; the abstract HDF5 store of lean/NixModel/Store.lean (objects, attributes, ordered hard links, removeAllLinks = every link to the object goes, creation-order index) and the hand-written entity layer lean/NixModel/Entities.lean, both validated on every run: the model replays every op of every generated history and must predict the library's answer (result / exception class, looked-up ids, counts, enumerations, cross-checks) and, at every dump, the whole observable tree (observe); ids and creation times are taken from the trace; fields the store model does not carry (array data, dimension descriptors, calibration, property values, row counts) are compared between dumps of the library only; harness dump = every public getter of every entity. Not proved: that the fuel of the recursive delete (number of objects + 1) suffices for every reachable forest — a too small fuel would leave descendants linked; the tie exercises nesting depth <= 5.")
+LEVEL_NOTE = ("Trusted: Lean kernel; the abstract HDF5 store of lean/NixModel/Store.lean (objects, attributes, ordered hard links, removeAllLinks = every link to the object goes, creation-order index) and the hand-written entity layer lean/NixModel/Entities.lean, both validated on every run: the model replays every op of every generated history and must predict the library's answer (result / exception class, looked-up ids, counts, enumerations, cross-checks) and, at every dump, the whole observable tree (observe); ids and creation times are taken from the trace; fields the store model does not carry (array data, dimension descriptors, calibration, property values, row counts) are compared between dumps of the library only; harness dump = every public getter of every entity. The fuel of the recursive delete (number of objects + 1) is proved to suffice for every file that satisfies the schema (Proofs/DeleteFuel.lean: containment links grow in object index, so they form a forest; deleteNested_fuel_indep, deleteSection_fuel_adequate, deleteSubSource_fuel_adequate, deleteBlockSource_fuel_adequate).")
 ASSUMPTIONS = []
 
 def build(w, rng, n):
